@@ -143,7 +143,7 @@ pub fn gen(rng: &mut Rng, thorough: bool, sink: &mut Sink) {
     sink.case(bcase(1, format!("did:iota:{}:0x{}", n, hexs).as_bytes()), "parse-network");
   }
   // (b2) every construction route on the interesting spellings
-  for n in ["", "iota:", "IOTA:", "smr:", "Smr:", "iota1:", "abcdefg:", "a:b:"] { for t in [tag, tag_up, "0x", ""] { for m in ["iota", "IOTA", "key"] { for tl in ["", "#f", "/p", "?q=1", " "] {
+  for n in ["", "iota:", "IOTA:", "smr:", "Smr:", "iota1:", "abcdefg:", "a:b:"] { for t in [tag, tag_up, "0x", ""] { for m in ["iota", "IOTA", "key"] { for tl in ["", "#f", "/p", "?q=1", " ", "#", "?", "?#", "/", "/#"] {
     sink.case(bcase(4, format!("did:{}:{}{}{}", m, n, t, tl).as_bytes()), "routes"); } } } }
   // (c) equality pairs
   let t2 = "0x0000000000000000000000000000000000000000000000000000000000000001";
